@@ -217,6 +217,13 @@ for name in IMPLS:
     U.fn(I, imp + '::index', attrs=(['external_body'] if name in EXTERNAL else ['exec_allows_no_decreases_clause']), loops=loops, rename=RENAME.get(name, {}),
          outline=OUTLINES.get(name, []))
 
+# C16: an include statement that is not recorded in the resolved include map of its file is reported as not found, at the statement
+_inc = U.fns[(I, '<ast::Include as Indexable>::index')]
+_inc.prologue = (_inc.prologue or '') + ' broadcast use {ax_includeid_key_model, axiom_random_state_builds_valid_hashers};'
+_inc.ensures += [C('!inc_map(old(ctx).db, old(ctx).file_trace@.last()).contains_key(IncludeId(ptr_of(&ast_syntax::<ast::Include, syntax::Language>(self)))) ==> '
+                   'final(ctx).diagnostics@.len() == old(ctx).diagnostics@.len() + 1 '
+                   '&& final(ctx).diagnostics@.last().location == (FileRange { file: old(ctx).file_trace@.last(), range: node_range(&ast_syntax::<ast::Include, syntax::Language>(self)) })', 'C16',
+                   name='an include statement that did not resolve (no entry in the resolved include map of its file) gets a diagnostic at the statement, in that file')]
 # C05 at the use site: the reference recorded for an identifier is the symbol the reference lookup yields, at the identifier's own range
 _sv = U.fns[(I, '<ast::SimpleValue as Indexable>::index')]
 _sv.rebind = [(r'ctx\.symbol_map\.add_reference\(([^,()]+), ([^;]*)\)(?=;\s*match ctx\.symbol_map\.symbol)',
